@@ -1312,6 +1312,21 @@ def check_descriptions(ctx: Ctx) -> None:
                 rpairs[fields_of.get(sub.value.id, sub.value.id)] = tag[1]
         ctx.ob("11.6-solution", con_r, bool(okr), "a key carrying a prefix is stored under the key WITHOUT that prefix (the cut length is the length of the same prefix)", node=st, stmt=f"if key.startswith({norm_stmt(t.args[0])}): strip that prefix")
     ctx.ob("11.6-solution", con_r, bool(wpairs) and rpairs == wpairs, f"from_dict must route each prefix to the field to_dict wrote it from: writer {wpairs}, reader {rpairs}", node=r, stmt="reader prefixes -> fields = writer fields -> prefixes")
+    # -- the converter of a saved group: an ARRAY of strings is a list of names, whatever its length (a scalar string is a
+    #    scalar dataset, read as bytes); collapsing a one-element array loses the list (F53: ['xx'] -> 'xx' -> ['x', 'x'])
+    cv = ctx.index.func("utils/hdf5.py", "convert_h5_group_to_dict")
+    con = "utils/hdf5.py::convert_h5_group_to_dict"
+    n_arr = 0
+    for st in stmts_of(cv):
+        if not (isinstance(st, ast.If) and any(isinstance(c, ast.Call) and dotted(c.func) == "isinstance" and len(c.args) == 2 and dotted(c.args[1]) == "ndarray" for c in ast.walk(st.test))):
+            continue
+        arr = next(dotted(c.args[0]) for c in ast.walk(st.test) if isinstance(c, ast.Call) and dotted(c.func) == "isinstance" and len(c.args) == 2 and dotted(c.args[1]) == "ndarray")
+        for a_ in (x for b in st.body for x in ast.walk(b) if isinstance(x, ast.Assign) and dotted(x.targets[0]) == arr):
+            n_arr += 1
+            alts = [a_.value.body, a_.value.orelse] if isinstance(a_.value, ast.IfExp) else [a_.value]
+            ok = all(isinstance(v, ast.Call) and ((last_attr(v) == "tolist" and dotted(v.func.value) == arr) or (dotted(v.func) == "list" and len(v.args) == 1)) for v in alts)
+            ctx.ob("11.6-string-lists", con, ok, "an array of strings read from the file must become a LIST for every length: a one-element list of names collapsed to a string is iterated character by character by the constructor of the function", node=a_, stmt="an array of strings is read back as a list")
+    ctx.floor("11.6-string-lists", 1)
     ctx.floor("11.6-function-description", 10)
     ctx.floor("11.6-solution", 5)
 
@@ -1334,6 +1349,7 @@ def run(ctx: Ctx) -> None:
 # ---------------------------------------------------------------------------
 _DBF = "algos/database.py"
 WITNESSES = [
+    {"name": "one-element-string-array-collapsed", "file": "utils/hdf5.py", "old": "            value = value.tolist()\n", "new": "            value = value[0] if value.size == 1 else value.tolist()\n", "expect": "11.6"},
     {"name": "function-description-lists-a-non-parameter", "file": MF, "old": "        \"special_repr\",\n        \"output_names\",\n    ]", "new": "        \"special_repr\",\n        \"output_names\",\n        \"last_eval\",\n    ]", "expect": "11.6"},
     {"name": "function-dim-not-stored", "file": MF, "old": "        self.dim = dim\n", "new": "        self.dim = 0\n", "expect": "11.6"},
     {"name": "solution-prefix-of-the-other", "file": OR_, "old": "    __C_TAG = \"constr:\"", "new": "    __C_TAG = \"constr\"", "expect": "11.6"},
